@@ -98,9 +98,14 @@ def load_known_findings(prop_id):
     if not path.exists():
         return [], []
     data = json.loads(path.read_text())
-    opened = [x for x in data.get('open', []) if x['property'] == prop_id]
-    fixed = [x for x in data.get('fixed', []) if x['property'] == prop_id]
+    def applies(x):
+        return x.get('property') == prop_id or prop_id in x.get('properties', [])
+    opened = [x for x in data.get('open', []) if applies(x)]
+    fixed = [x for x in data.get('fixed', []) if applies(x)]
     return opened, fixed
+
+
+CAPPED = set()     # ids of open findings with a per-run cap (filled by run_check)
 
 
 class ShardStats:
@@ -115,6 +120,7 @@ class ShardStats:
         self.exhaustive_done = 0
         self.violations = []      # list of dicts(bucket,msg,case,detail)
         self.errors = []
+        self.capped_cases = []    # cases counted under a rate-capped open finding
 
     def add(self, case, out:Outcome, keep_sample=True):
         self.evaluations += 1
@@ -122,6 +128,8 @@ class ShardStats:
             self.labels[l] += 1
         for k in out.known:
             self.known[k] += 1
+            if k in CAPPED and len(self.capped_cases) < 8:
+                self.capped_cases.append(dict(finding=k, case=case, note=out.detail))
             if os.environ.get('VERIF_WITNESS'):     # harvest witnesses of open findings
                 wdir = Path(os.environ['VERIF_WITNESS'])
                 wdir.mkdir(parents=True, exist_ok=True)
@@ -143,7 +151,7 @@ class ShardStats:
             labels=dict(self.labels), known=dict(self.known),
             inconclusive=dict(self.inconclusive), samples=self.samples,
             skipped_budget=self.skipped_budget, exhaustive_done=self.exhaustive_done,
-            violations=self.violations, errors=self.errors)
+            violations=self.violations, errors=self.errors, capped_cases=self.capped_cases)
         tmp = str(path) + '.tmp'
         with open(tmp, 'w') as fh:
             json.dump(data, fh, default=str)
@@ -277,6 +285,8 @@ def run_pinned(mod, ctx):
                 detail=out.detail, source='pinned:' + os.path.basename(path), path=path))
     for finding in opened:
         rp = finding.get('replay')
+        if isinstance(rp, dict):
+            rp = rp.get(mod.ID)
         reproduced = None
         if rp:
             data = json.loads((VERIF/rp).read_text())
@@ -322,6 +332,9 @@ def run_check(prop_id:str, tier:str) -> int:
         ctx = Ctx(rundir/'pinned', tier)
         ctx.workdir.mkdir(parents=True)
         pinned_viol, known_lines, notes, n_pinned = run_pinned(mod, ctx)
+        caps = {x['id']: x['max_hits_per_run'][tier] for x in load_known_findings(prop_id)[0]
+            if 'max_hits_per_run' in x}
+        CAPPED.update(caps)
 
         mpctx = mp.get_context('fork')
         procs = []
@@ -368,6 +381,7 @@ def run_check(prop_id:str, tier:str) -> int:
                 total.exhaustive_done += data['exhaustive_done']
                 violations.extend(data['violations'])
                 harness_errors.extend(data['errors'])
+                total.capped_cases.extend(data.get('capped_cases', []))
             elif fp.exists():
                 violations.append(json.loads(fp.read_text()))
                 total.inconclusive['shard_killed_while_shrinking'] += 1
@@ -375,6 +389,16 @@ def run_check(prop_id:str, tier:str) -> int:
                 harness_errors.append(f'shard {k} produced no result'
                     + (' (killed at wall-clock limit)' if k in killed else ''))
 
+        # rate-capped open findings: more hits than the cap is a violation
+        for fid, cap in caps.items():
+            if total.known.get(fid, 0) > cap:
+                cases = [c for c in total.capped_cases if c['finding'] == fid]
+                cases.sort(key=lambda c: len(canon(c['case'])))
+                for c in cases[:3]:
+                    violations.append(dict(bucket=f'over-cap:{fid}:{case_hash(c["case"])}',
+                        msg=f'{total.known[fid]} discrepancies of the rate-capped open finding '
+                        f'{fid} in one run (cap {cap}): {c.get("note")}', case=c['case'],
+                        detail=c.get('note'), source='cap'))
         # de-duplicate violations by bucket, keep the smallest case of each
         by_bucket = {}
         for v in violations:
